@@ -178,6 +178,25 @@ func dispatch(f []string) string {
 			cur = rebase(cur)
 		}
 		return sb.String()
+	case "gamegen": // gamegen <fen> m1 m2 ... : play the moves on ONE generator (PushMove, state carried by the engine
+		// itself, not re-loaded from a FEN), then the same output as `gen` for the position reached
+		gen, e := genFromArg(f[1])
+		if gen == nil {
+			return e
+		}
+		cur := gen
+		for _, ms := range f[2:] {
+			m, ok := engine.VerifFindMove(cur, ms)
+			if !ok {
+				return "ok nomove:" + ms
+			}
+			engine.VerifPush(cur, m)
+			cur = rebase(cur)
+		}
+		ms := sorted(engine.VerifGen(cur))
+		ts := sorted(engine.VerifGenTactical(cur))
+		return fmt.Sprintf("ok moves=%s tact=%s cnt=%d tcnt=%d chk=%v", strings.Join(ms, ","), strings.Join(ts, ","),
+			engine.VerifCount(cur), engine.VerifCountTactical(cur), b2i(engine.VerifInCheck(cur)))
 	case "uci": // uci <line> : feed one line to ParseInputLine (synchronous commands only); prints captured stdout as hex
 		var outp string
 		outp = captureStdout(func() { engine.ParseInputLine(f[1]) })
